@@ -505,6 +505,9 @@ impl Writer {
                         return Err(e.into());
                     }
                 }
+                // KeyDir already points to the entries that the merge copied before it failed.
+                // They must be durable before a later merge removes the files they came from.
+                fs::File::open(utils::datafile_name(path, fileid))?.sync_all()?;
             }
         }
         // The entries that are appended from now on have to go into a new file above those.
